@@ -339,6 +339,13 @@ class Engine:
                 if set(da.data) != set(db.data):
                     return z3.BoolVal(False)
                 return z3.And([self.eq(da.data[k], db.data[k], st) for k in da.data] or [z3.BoolVal(True)])
+        if self.spec and ((isinstance(a, VTuple) and isinstance(b, VLoc)) or (isinstance(a, VLoc) and isinstance(b, VTuple))):
+            # only used by specs (log_tags() == [...]): element-wise
+            ia = a.items if isinstance(a, VTuple) else st.loc(a).data
+            ib = b.items if isinstance(b, VTuple) else st.loc(b).data
+            if len(ia) != len(ib):
+                return z3.BoolVal(False)
+            return z3.And([self.eq(x, y, st) for x, y in zip(ia, ib)] or [z3.BoolVal(True)])
         if isinstance(a, VClass) and isinstance(b, VClass):
             return z3.BoolVal(a.name == b.name)
         if isinstance(a, VConst) and isinstance(b, VConst):
